@@ -23,6 +23,9 @@ RULE = ("executions = one complete environment function (or configuration) with 
         "distinct_nontrivial = distinct (configuration, environment) executions in which at "
         "least one address changed; full = every answer at every choice point, bounded = at most "
         "d non-default answers")
+STATE_COUNTING = ("stateless exploration of the environment: states = complete executions of the real code "
+                  "(leaves of the choice tree), transitions = environment answers given along them (edges), "
+                  "traces_validated = executions, each run directly on the implementation (no model)")
 ASSUMPTIONS = [
     "the salt enters only through the salter seam (checked: md5 configurations run the real hash)",
     "width 32/128: windows + salt menu + bounded deviations, not the whole space",
@@ -113,6 +116,9 @@ class SmallWidth(Part):
         for ch, pairs in runs:
             n += 1
             res.evals += 1
+            res.states += 1
+            res.transitions += (len(ch.trace) if ch is not None else 0)
+            res.traces += 1
             table = ch.table() if ch is not None else case["table"]
             rc = {"L": L, "B": B, "default": case["default"], "table": table, "bound": None}
             if isinstance(pairs, tuple):
@@ -250,6 +256,9 @@ class LazyReal(Part):
         for ch, pairs in runs:
             n += 1
             res.evals += 1
+            res.states += 1
+            res.transitions += (len(ch.trace) if ch is not None else 0)
+            res.traces += 1
             table = ch.table() if ch is not None else case["table"]
             rc = dict(case, table=table)
             if isinstance(pairs, tuple):
